@@ -554,6 +554,33 @@ func (fc *FnCtx) execInstr(ins ssa.Instruction) (terminated bool, err error) {
 		if l.Kind == locGlobal {
 			fc.vc.warn("store to global %s", l.Comp)
 		}
+		if a, ok := x.Addr.(*ssa.Alloc); ok {
+			if at, isArr := a.Type().(*types.Pointer).Elem().Underlying().(*types.Array); isArr && fc.arrayRegionMode(a) {
+				// the region's elements are the bytes of the opaque value: E[ref][i] = arrat(v, i)
+				fn := "arrat." + typeKey(a.Type().(*types.Pointer).Elem())
+				es := fc.sortStr(at.Elem())
+				fc.vc.declareFun(fn, []string{"Int", "Int"}, es)
+				na := fc.vc.fresh("arrbytes", arraySort(es))
+				fc.vc.nfresh++
+				q := fmt.Sprintf("q!ab!%d", fc.vc.nfresh)
+				fc.vc.assert("(forall ((" + q + " Int)) (! (= (select " + na + " " + q + ") (" + fn + " " + v.T + " " + q + ")) :pattern ((select " + na + " " + q + "))))")
+				c := elemComp(at.Elem())
+				srt := arraySort(arraySort(es))
+				fc.setComp(c, srt, sto(fc.getComp(c, srt), addr.T, na))
+			}
+		}
+		if ia, ok := x.Addr.(*ssa.IndexAddr); ok {
+			if a, ok := ia.X.(*ssa.Alloc); ok {
+				if _, isArr := a.Type().(*types.Pointer).Elem().Underlying().(*types.Array); isArr {
+					// an element store makes the opaque whole-array value of this local arbitrary
+					t := a.Type().(*types.Pointer).Elem()
+					bc := boxComp(t)
+					av, _ := fc.val(a)
+					nv := fc.vc.fresh("arrval", "Int")
+					fc.setComp(bc, arraySort("Int"), sto(fc.getComp(bc, arraySort("Int")), av.T, nv))
+				}
+			}
+		}
 		return false, fc.store(l, v)
 	case *ssa.If:
 		c, err := fc.val(x.Cond)
@@ -840,6 +867,8 @@ func (fc *FnCtx) execAlloc(x *ssa.Alloc) error {
 			es := fc.sortStr(u.Elem())
 			srt := arraySort(arraySort(es))
 			fc.setComp(c, srt, sto(fc.getComp(c, srt), r, "((as const (Array Int "+es+")) "+fc.vc.zeroValue(u.Elem())+")"))
+			bc := boxComp(t)
+			fc.setComp(bc, arraySort("Int"), sto(fc.getComp(bc, arraySort("Int")), r, fc.vc.zeroValue(t)))
 		} else {
 			c := boxComp(t)
 			srt := arraySort("Int")
@@ -940,15 +969,7 @@ func (fc *FnCtx) execUnOp(x *ssa.UnOp) error {
 				return fc.loadImmutableGlobal(x, g)
 			}
 		}
-		if at, ok := l.Typ.Underlying().(*types.Array); ok && l.Kind == locBox {
-			if a, ok := x.X.(*ssa.Alloc); ok && fc.arrayRegionMode(a) {
-				_ = at
-				r := fc.symbolic("arrval", l.Typ)
-				fc.env[x] = r
-				fc.vc.warn("whole-array load of region-modelled array in %s", fc.fn.Name())
-				return nil
-			}
-		}
+		// (whole-array loads of region-modelled arrays read the opaque value kept in the box alongside the region)
 		r, err := fc.load(l)
 		if err != nil {
 			return err
